@@ -281,6 +281,14 @@ _COMBINATORS = {
     "core::result::Result::unwrap_or": {"Ok": (_VAL, None), "Err": (_VAL, None)},
 }
 
+# bool-valued combinators: (variant whose payload goes to the predicate closure, the other variant, result for the other variant)
+_BOOL_COMBINATORS = {
+    "core::option::Option::is_some_and": ("Some", "None", False),
+    "core::option::Option::is_none_or": ("Some", "None", True),
+    "core::result::Result::is_ok_and": ("Ok", "Err", False),
+    "core::result::Result::is_err_and": ("Err", "Ok", False),
+}
+
 _VARIANT_ENUMS = ("core::result::Result", "core::option::Option", "core::task::poll::Poll", "core::ops::control_flow::ControlFlow")
 _TRY_MAP = {"Ok": "Continue", "Err": "Break", "Some": "Continue", "None": "Break"}
 
@@ -308,7 +316,32 @@ def words_of(body, call_sym, edge_sym=None, stmt_sym=None, start=0, stops=(), ke
     def _nsl(l_):
         return l_ if _ns is None else (_ns, l_)
     try:
-        _cyc = body.cyclic_blocks(succ) if succ is not None else body.cyclic_blocks()
+        if stops or start:
+            # only cycles inside the explored region count (an arm of a `loop { select! {..} }` explored up to the back
+            # edge is loop-free although the whole body is not)
+            sf_ = succ or body.succ_noawait
+            st_ = set(stops)
+
+            def _reach(b0):
+                seen_, todo_ = set(), [b0]
+                while todo_:
+                    x_ = todo_.pop()
+                    if x_ in seen_:
+                        continue
+                    seen_.add(x_)
+                    if x_ in st_:
+                        continue
+                    todo_.extend(sf_(x_))
+                return seen_
+            region_ = _reach(start)
+            _cyc = set()
+            for b_ in region_:
+                if b_ in st_:
+                    continue
+                if any(b_ in _reach(n_) for n_ in sf_(b_)):
+                    _cyc.add(b_)
+        else:
+            _cyc = body.cyclic_blocks(succ) if succ is not None else body.cyclic_blocks()
     except Exception:
         _cyc = set()
     _loopdefs = set()
@@ -486,6 +519,60 @@ def words_of(body, call_sym, edge_sym=None, stmt_sym=None, start=0, stops=(), ke
                     traceback.print_exc()
                 continue
 
+    if models and getattr(_TLS, 'prog', None) is not None and _depth < 2 and edge_sym is not None:
+        # `opt.is_some_and(|x| pred(x))` & co.: written-out form  match opt { Some(x) => pred(x), None => false }.
+        # The variant test and the predicate's outcome become the rule's own edge symbols (asked for synthetic subjects);
+        # the boolean result is correlated with the caller's later test of it like an inlined predicate helper's.
+        for i_, bl_ in enumerate(body.blocks):
+            if bl_.get("cleanup") or bl_["t"]["k"] != "call" or i_ in inl or i_ in _cyc:
+                continue
+            c_ = body.call_at(i_)
+            if c_ is None or c_.fn not in _BOOL_COMBINATORS or not isinstance(c_.dest, int) or len(c_.args) < 2:
+                continue
+            try:
+                if call_sym(c_, o) is not None:
+                    continue
+                vin, vother, other_val = _BOOL_COMBINATORS[c_.fn]
+                src_t = o.of_operand(c_.args[0])
+                ct = strip_identity(o.of_operand(c_.args[1]))
+                if not (ct[0] == "agg" and ct[1] == "closure" and ct[2] in _PROG.bodies):
+                    continue
+                kb = _PROG.bodies[ct[2]]
+
+                def _esym(subj_, labs_):
+                    x_ = edge_sym(i_, None, subj_, set(labs_), o)
+                    if x_ is None or x_ == "":
+                        return []
+                    return list(x_) if isinstance(x_, list) else [x_]
+                ns2 = (kb.path, i_)
+                so = SubstOrigins(kb, {2: ("field", ("variant", src_t, vin), "0")})
+                ef = inline["edge_for"](kb) if inline is not None else edge_sym
+                subs = words_of(kb, call_sym, ef, stmt_sym, keep_end=False, succ=succ, drop_suspend=False, inline=inline, _origins=so,
+                                _depth=_depth + 1, _ns=ns2, models=models)
+                if not subs:
+                    continue
+                alts = [_esym(("discr", src_t), {vother}) + [("\x00set", c_.dest, other_val)]]
+                okm = True
+                for sy_, rv_ in subs:
+                    head = _esym(("discr", src_t), {vin}) + list(sy_)
+                    if rv_ is None:
+                        if len(subs) != 1:
+                            okm = False
+                            break
+                        rt_ = so.of_local(0)
+                        for tv_ in (True, False):
+                            alts.append(head + _esym(rt_, {"true" if tv_ else "false"}) + [("\x00set", c_.dest, tv_)])
+                    else:
+                        alts.append(head + [("\x00set", c_.dest, bool(rv_))])
+                if okm:
+                    inl[i_] = alts
+                    flags.add(c_.dest)
+            except Exception:
+                if os.environ.get("VERIF_DEBUG_MODELS"):
+                    import traceback
+                    traceback.print_exc()
+                continue
+
     def sym_block(bb):
         if bb in cache_b:
             return cache_b[bb]
@@ -649,6 +736,12 @@ def words_of(body, call_sym, edge_sym=None, stmt_sym=None, start=0, stops=(), ke
                     out.append(("\x00dtest", key, frozenset(labs), side_, tuple(vis)))
                     cache_e[(a, b)] = out
                     return out
+            if norig_ is not None and vis and out and isinstance(out[-1], tuple) and len(out[-1]) == 3 and out[-1][0] == "\x00vtest":
+                # a body with inlined helpers: a test of a value whose variant this very path has fixed (the helper's
+                # `return None` met by the caller's `if let Some(..)`) is implied - its symbols are dropped per word
+                out[-1] = out[-1] + (tuple(vis),)
+                cache_e[(a, b)] = out
+                return out
             out.extend(vis)
         cache_e[(a, b)] = out
         return out
@@ -778,6 +871,8 @@ def words_of(body, call_sym, edge_sym=None, stmt_sym=None, start=0, stops=(), ke
                         if kv is not None and kv[0] not in s_[2]:
                             feasible = False
                             break
+                        if len(s_) == 4 and kv is None:
+                            clean.extend(s_[3])         # not implied: the test is an event of this path
                     continue
                 if isinstance(s_, tuple) and len(s_) == 5 and s_[0] == "\x00dtest":
                     _, key_, labs_, dep_, vis_ = s_
@@ -1791,6 +1886,56 @@ def expand_upvars(prog, body, t, depth=0):
     return t
 
 
+def closure_field_projection(prog, t):
+    """For a closure term whose body just projects fields out of its (only) argument - `|info| info.affinity` - the tuple of
+    field names, outermost last; None otherwise."""
+    t = strip_identity(t)
+    if not (t[0] == "agg" and t[1] == "closure" and t[2] in prog.bodies):
+        return None
+    kb = prog.bodies[t[2]]
+    r = strip_identity(Origins(kb).of_local(0))
+    names = []
+    for _ in range(6):
+        if r[0] == "field":
+            names.append(r[2])
+            r = strip_identity(r[1])
+            continue
+        if r[0] in ("deref", "ref", "copy"):
+            r = strip_identity(r[1])
+            continue
+        break
+    if r[0] == "param" and names:
+        return tuple(reversed(names))
+    return None
+
+
+def mapped_field_names(prog, t):
+    """Field names selected by projection closures of `Option::map` / `Result::map` calls inside term `t`."""
+    out = set()
+    for x in walk(t):
+        if x[0] == "call" and name_matches(x[1], ("Option::map", "Result::map")) and len(x[2]) >= 2:
+            fp = closure_field_projection(prog, x[2][1])
+            if fp:
+                out |= set(fp)
+    return out
+
+
+def calls_with_closures(prog, body, spec):
+    """Calls to `spec` in `body` and in the (non-coroutine) closures it creates: [(call, receiver/argument term getter)].
+    The getter gives argument i's origin term with the closure's captures replaced by what was captured."""
+    out = []
+    o = Origins(body)
+    for c in body.calls_to(spec):
+        out.append((c, (lambda i, c=c, o=o: o.of_operand(c.args[i]))))
+    for k in prog.children(body):
+        if k.coroutine or k.kind != "Closure":
+            continue
+        ko = Origins(k)
+        for c in k.calls_to(spec):
+            out.append((c, (lambda i, c=c, ko=ko, k=k: expand_upvars(prog, k, ko.of_operand(c.args[i])))))
+    return out
+
+
 def phi_alternatives(body, o, operand):
     """[(def_block, term)] for the definitions reaching `operand` when its local (followed through single-definition
     copies/moves) is assigned on several branches - e.g. a reply hoisted out of the arms of a match into one variable.
@@ -1821,6 +1966,31 @@ def payload_root(t):
             continue
         if s[0] == "call" and name_matches(s[1], ("Try::branch", "Option::ok_or_else", "Option::ok_or", "Result::map_err", "Option::as_ref", "Option::copied", "Option::cloned")) and s[2]:
             s = strip_identity(s[2][0])
+            continue
+        break
+    return s
+
+
+def deep_payload(t):
+    """See through a value that was wrapped and unwrapped again on the way: `Ok(x)?`, `Poll::Ready(x)` matched as Ready,
+    a helper's `phi(Ok{x} | Err{..})` followed by `?` - returns x. A term that is not such a round trip is returned
+    unchanged (after strip_identity)."""
+    s = strip_identity(t)
+    for _ in range(12):
+        if not (s[0] == "field" and s[2] == "0" and s[1][0] == "variant" and s[1][2] in ("Some", "Ok", "Continue", "Ready")):
+            break
+        v = s[1][2]
+        inner = strip_identity(s[1][1])
+        want = {"Continue": ("Ok", "Some")}.get(v, (v,))
+        if inner[0] == "call" and name_matches(inner[1], "Try::branch") and inner[2]:
+            inner = deep_payload(inner[2][0])
+            want = ("Ok", "Some")
+        alts = [strip_identity(a) for a in inner[1]] if inner[0] == "phi" else [inner]
+        alts = [a for a in alts if isinstance(a, tuple)]
+        hit = [a for a in alts if a[0] == "agg" and any(str(a[2]).endswith("::" + w) for w in want) and len(a[3]) == 1]
+        rest = [a for a in alts if a not in hit]
+        if len(hit) == 1 and all(a[0] == "agg" and str(a[2]).split("::")[-1] in ("Err", "None", "Pending") for a in rest):
+            s = strip_identity(hit[0][3][0])
             continue
         break
     return s
